@@ -2086,12 +2086,29 @@ class Circuit(Unitary, StateVectorMap, Collection[Operation]):
 
         region = region.shift_left(len(idle_cycles))
 
+        # Cycles whose gates were all pushed back are left empty, drop them
+        emptied = [
+            cycle_index
+            for cycle_index in range(region.min_cycle, region.max_min_cycle)
+            if self._is_cycle_idle(cycle_index)
+        ]
+        for cycle_index in reversed(emptied):
+            self.pop_cycle(cycle_index)
+        if len(emptied) > 0:
+            region = CircuitRegion({
+                qudit_index: (
+                    bounds[0] - sum(c < bounds[0] for c in emptied),
+                    bounds[1] - sum(c < bounds[1] for c in emptied),
+                )
+                for qudit_index, bounds in region.items()
+            })
+
         # Prep output
         region = CircuitRegion({
             qudit_index: (region.min_cycle, region[qudit_index][1])
             for qudit_index in region
         })
-        net_new_cycles = shadow_length - len(idle_cycles)
+        net_new_cycles = shadow_length - len(idle_cycles) - len(emptied)
         shadow_region = CircuitRegion({
             qudit_index: (shadow_start, shadow_map[qudit_index])
             for qudit_index in shadow_qudits
